@@ -31,7 +31,10 @@ def main():
         "One subsection per property, written by whoever built the check (the lead for C01-C04 and C20, one builder "
         "sub-agent per property otherwise, working from the plan in `notes/DESIGN-plan.md` and `notes/BUILDING.md`). "
         "Budgets quoted as *quick* are per `./check Cxx --tier quick` run; wall times were measured on a machine "
-        "shared with up to 14 other builders and are upper bounds.\n"
+        "shared with up to 14 other builders and are upper bounds. The builders' notes were written while their proposed repairs were "
+        "still diffs under `notes/fixes/`: where a note says *fix proposed* or *known finding*, section 6 gives the final "
+        "disposition (almost all proposed repairs were applied to `/repo` as separate `fix:` commits after the whole "
+        "repository suite had passed with them).\n"
     )
     for p in props:
         note = os.path.join(HERE, "notes", f"design-{p['id']}.md")
@@ -101,7 +104,7 @@ def main():
         "`confirmed` = demo passes on the clean tree, fails with the patch, and the repository suite passes with the patch, all re-run here. "
         "`caught` = the quick tier of the listed check exits 1 with a VIOLATION line when pointed at a worktree with the patch.\n"
     )
-    parts.append("| id | files | what it needs to manifest (from the author's notes) | confirmed | caught by | first key |\n|---|---|---|---|---|---|")
+    parts.append("| id | files | the change (title of the author's notes; full notes in seeded/<id>/notes.md) | confirmed | caught by | first key |\n|---|---|---|---|---|---|")
     metas = sorted(glob.glob(os.path.join(HERE, "seeded", "*", "meta.json")))
     ncaught = nconf = 0
     for m in metas:
@@ -114,15 +117,16 @@ def main():
             if v.get("keys"):
                 keys = v["keys"][0][:160]
                 break
-        needs = (d.get("summary") or d.get("needs") or "").strip().splitlines()
-        needs = " ".join(needs[:3])[:260].replace("|", "/")
+        needs = [l.strip("# ").strip() for l in (d.get("summary") or d.get("needs") or "").strip().splitlines() if l.strip()]
+        needs = (needs[0] if needs else "")[:200].replace("|", "/")
+        missed_first = any(not h.get("caught_by") for h in d.get("history", []) if h.get("confirmed") is not False)
         conf = d.get("confirmed")
         if conf:
             nconf += 1
             if d.get("caught_by"):
                 ncaught += 1
         parts.append(
-            f"| {d['id']} | {files} | {needs} | {'yes' if conf else 'no: ' + str(d.get('why_not_confirmed',''))[:60]} | {', '.join(d.get('caught_by') or []) or ('-' if not conf else 'NOT CAUGHT')} | {keys.replace('|','/')} |"
+            f"| {d['id']} | {files} | {needs} | {'yes' if conf else 'no: ' + str(d.get('why_not_confirmed',''))[:60]} | {(', '.join(d.get('caught_by') or []) + (' (missed by the first version of the check; caught after it was strengthened)' if missed_first and d.get('caught_by') else '')) or ('-' if not conf else 'NOT CAUGHT')} | {keys.replace('|','/')} |"
         )
     parts.append(f"\nConfirmed changes: {nconf}; caught by the quick tier of a check: {ncaught}.\n")
     extra = os.path.join(HERE, "notes", "design-seeded-extra.md")
